@@ -454,6 +454,9 @@ def cell_mutations(enums):
         "-1", "0", "1", "2", "3", "5", "64", "66", "99", "255", "1000000", big, "-" + big, "9" * 1200, "7" * 300,
         "1.5", "1.0", "1e3", "0x10", "+5", "-0", "007", "1_0", "_1", "1 ", "１２", "٣", "²", "1\x00",
         "inf", "-inf", "Infinity", "-Infinity", "1e999", "-1e999", "NaN", "1e309", "0e0", "1E2", ".5", "5.", "1e-400",
+        # names of attributes that every enum class / int has but that are not members
+        "__doc__", "__class__", "__module__", "__name__", "__members__", "__dict__", "mro", "real", "imag", "numerator",
+        "denominator", "bit_length", "to_bytes", "from_bytes", "conjugate", "name", "value", "_value_", "__init__",
         "abc", "None", "nan", "TRUE", "true", "False", "FALSE", "yes", "No", "T", "f", "Y", "maybe", "truee",
         "high_quality", "HIGH_QUALITY", "High_Quality", "high quality", "low_delay", "hd1080p_50", "HD1080P_50",
         "custom_format", "le_gall_5_3", "fidelity", "color_4_2_0", "interlaced", "uhdtv", "does_not_exist",
